@@ -98,6 +98,8 @@ class Tie:
         self.hx = core.build_harness("c20_seek", ["c20_seek.c"], variant="o1", extra_inc=self.inc)
         self.mx = core.build_extracted("c20model", "Extract/Extract_C20.v", "c20_driver.ml")
         self._asan = None
+        import threading
+        self._lock = threading.Lock()
         self.nfile = 0
         self.nviol = 0
         self.keys_seen = set()
@@ -113,8 +115,10 @@ class Tie:
         return os.path.join(self.ctx.scratch, name)
 
     def blob(self, data, suffix="bin"):
-        self.nfile += 1
-        p = self.path("b%05d.%s" % (self.nfile, suffix))
+        with self._lock:
+            self.nfile += 1
+            n = self.nfile
+        p = self.path("b%05d.%s" % (n, suffix))
         with open(p, "wb") as f:
             f.write(data)
         return p
@@ -146,6 +150,22 @@ class Tie:
         if rc != 0:
             raise RuntimeError("model driver failed rc=%d: %s" % (rc, err[-600:]))
         return out.split("\n")
+
+    def run_m_cases(self, cases, workers=6):
+        """cases: [(weight, [lines])], each starting with its '# case id' line; runs them in a few model processes
+        (largest first, greedy balancing) and returns all output lines (sections are keyed by id, order is irrelevant)."""
+        from concurrent.futures import ThreadPoolExecutor
+        bins = [[0, []] for _ in range(max(1, min(workers, len(cases))))]
+        for w, lines in sorted(cases, key=lambda c: -c[0]):
+            b = min(bins, key=lambda b: b[0])
+            b[0] += w + 1
+            b[1] += lines
+        texts = ["\n".join(b[1]) + "\n" for b in bins if b[1]]
+        if not texts:
+            return []
+        with ThreadPoolExecutor(max_workers=len(texts)) as ex:
+            outs = list(ex.map(self.run_m, texts))
+        return [ln for o in outs for ln in o]
 
     def report(self, replay, what, no_input=False, key=None):
         if key is not None:
@@ -305,7 +325,7 @@ class Tie:
         for i in range(nrand):
             cls = rng.choice(["tiny", "tiny", "small", "small", "medium", "large"])
             n = {"tiny": rng.randint(0, 9), "small": rng.randint(10, 400), "medium": rng.randint(401, 20000),
-                 "large": rng.randint(20001, 300000 if ctx.quick else 3000000)}[cls]
+                 "large": rng.randint(20001, 150000 if ctx.quick else 3000000)}[cls]
             kind = rng.choice(["text", "text", "rand", "zero", "count"])
             mfs = rng.choice([1, 2, 3, rng.randint(4, 64), max(1, n - 1), max(1, n), n + 1, max(1, n // 3), rng.randint(1, max(2, n)),
                               1 << 20, 1 << 30, 0])
@@ -354,10 +374,10 @@ class Tie:
             return
         cs = self.sections(clines)
         # ---- model replay of the same call histories
-        mtext = []
+        mcases = []
         for s in specs:
             cl = cs.get(s["id"], [])
-            mtext += ["# case %s" % s["id"], "xfile %s" % s["xpath"], "cinit %d %d" % (s["cf"], s["mfs"])]
+            mtext = ["# case %s" % s["id"], "xfile %s" % s["xpath"], "cinit %d %d" % (s["cf"], s["mfs"])]
             for ln in cl:
                 cmd, pos, d = kv(ln)
                 if cmd == "c":
@@ -367,8 +387,9 @@ class Tie:
                 elif cmd == "s":
                     mtext.append("s %s %s" % (d["cap"], d["tr"]))
             mtext.append("clog")
+            mcases.append((len(s["x"]) * (2 if s["cf"] else 1) + 50 * len(cl), mtext))
         t0 = _t.time()
-        mlines = self.run_m("\n".join(mtext) + "\n")
+        mlines = self.run_m_cases(mcases)
         core.log("C20   compress (model replay): %.1fs" % (_t.time() - t0))
         ms = self.sections(mlines)
         good = []
@@ -509,7 +530,12 @@ class Tie:
             reads += [("r",) + r for r in ranges]
             s["exhaustive"] = "all (offset,len) ranges, shuffled"
         else:
-            bnd = sorted(set(D))
+            bnd = set(D)
+            for i in range(len(log)):               # skip-buffer boundaries inside long frames (dummy decoding in chunks of BUFF)
+                for k in (1, 2):
+                    if log[i][1] > k * 131072:
+                        bnd.update([D[i] + k * 131072, D[i] + k * 131072 + 1])
+            bnd = sorted(bnd)
             def near(p):
                 return min(max(p + rng.choice([-2, -1, 0, 0, 1, 2]), 0), n)
             def pick_pos():
@@ -659,17 +685,17 @@ class Tie:
         core.log("C20   reads (real code): %.1fs" % (_t.time() - t0))
         specs = [s for s in specs if not s.get("dead")]
         model_max = 140000 if ctx.quick else 400000
-        mtext = []
+        mcases = []
         for s in specs:
             cl = cs.get(s["id"], [])
             s["model_reads"] = len(s["x"]) <= model_max
             nf = len(s["log"])
             idx = list(range(nf + 3)) + [M32 - 1] if nf <= 64 else list(range(9)) + list(range(nf - 8, nf + 3)) + [M32 - 1]
             s["acc_idx"] = idx
-            mtext += ["# case %s" % s["id"], "xfile %s" % s["xpath"],
-                      "log %d %s" % (s["cf"], " ".join("%d:%d:%d" % e for e in s["log"])),
-                      "tableof", "loadfile %s" % s["apath"], "acc " + " ".join(str(i) for i in idx),
-                      "o2f " + " ".join(str(p) for p in s["o2f"]), "rinit"]
+            mtext = ["# case %s" % s["id"], "xfile %s" % s["xpath"],
+                     "log %d %s" % (s["cf"], " ".join("%d:%d:%d" % e for e in s["log"])),
+                     "tableof", "loadfile %s" % s["apath"], "acc " + " ".join(str(i) for i in idx),
+                     "o2f " + " ".join(str(p) for p in s["o2f"]), "rinit"]
             if s["model_reads"]:
                 nrd = 0
                 for ln in cl:
@@ -680,8 +706,9 @@ class Tie:
                         orc = ";".join("%s:%s" % (t.split(":")[3], "1" if t.split(":")[5] == "1" else "0")
                                        for t in d["tr"].split(";") if t[0] in "kd")
                         mtext.append("%s %s %s %s" % (cmd, pos[0], pos[1], orc or "-"))
+            mcases.append((len(s["x"]) * (3 if s["model_reads"] else 1) + 200 * nf + 20 * len(mtext), mtext))
         t0 = _t.time()
-        mlines = self.run_m("\n".join(mtext) + "\n")
+        mlines = self.run_m_cases(mcases)
         core.log("C20   reads (model replay): %.1fs" % (_t.time() - t0))
         ms = self.sections(mlines)
         for s in specs:
@@ -732,19 +759,20 @@ class Tie:
                 i = int(f[0])
                 if any(v.startswith("T") for v in f[1:]):
                     raise Fail("model accessor trapped for frameIndex %d: %s" % (i, it))
-                if i in titems:
-                    cv = titems[i]
-                    if cv[4] != "1":
-                        raise Fail("ZSTD_seekable_get* and ZSTD_seekTable_get* disagree for frameIndex %d" % i)
-                    if cv[:4] != f[1:5]:
-                        raise Fail("accessors for frameIndex %d: code (cOff,dOff,cSize,dSize)=%s, model %s" % (i, cv[:4], f[1:5]))
                 # direct oracle against the frame log
                 if i < nf:
                     want = [str(C[i]), str(D[i]), str(log[i][0]), str(log[i][1])]
                 else:
                     want = [str(M64 - 2), str(M64 - 2), str(M64 - 100), str(M64 - 100)]
                 if i in titems and titems[i][:4] != want:
-                    raise Fail("accessors for frameIndex %d (numFrames %d) return %s, frame layout says %s" % (i, nf, titems[i][:4], want))
+                    raise Fail("accessors (cOffset,dOffset,cSize,dSize) for frameIndex %d (numFrames %d) return %s, the frame layout says %s "
+                               "(2^64-2 = FRAMEINDEX_TOOLARGE, 2^64-100 = ERROR(frameIndex_tooLarge))" % (i, nf, titems[i][:4], want))
+                if i in titems:
+                    cv = titems[i]
+                    if cv[:4] != f[1:5]:
+                        raise Fail("accessors for frameIndex %d: code (cOff,dOff,cSize,dSize)=%s, model %s" % (i, cv[:4], f[1:5]))
+                    if cv[4] != "1":
+                        raise Fail("ZSTD_seekable_get* and ZSTD_seekTable_get* disagree for frameIndex %d" % i)
             co = dict(t.split(":") for t in [l for l in cl if l.startswith("o2f")][0].split()[1:])
             mo = dict(t.split(":") for t in [l for l in ml if l.startswith("o2f")][0].split()[1:])
             for p in s["o2f"]:
@@ -986,6 +1014,36 @@ class Tie:
             self.compare_corrupt(v, cs.get(v["id"], []), ms.get(v["id"], []))
         return bad
 
+    def phase_maxframes(self):
+        """ZSTD_seekable_logFrame refuses the (MAXFRAMES+1)-th frame (hypothesis 'lenN log <= MAXFRAMES' of the table theorems is
+        enforced by the code): direct oracle on the real code, 2^27 log entries (1.6 GB, ~1 s); the model's log_frame has the
+        same test (not executed on a list of that length)."""
+        try:
+            txt = open(os.path.join(core.VERIF, "coq", "Gen", "Gen_Seek.v")).read()
+            mx = int(txt.split("sk_MAXFRAMES : N := ")[1].split("%")[0])
+        except (OSError, IndexError, ValueError):
+            return
+        if mx > (1 << 27):
+            core.log("C20: MAXFRAMES = %d > 2^27: boundary run skipped (the theorems carry the bound)" % mx)
+            return
+        rc, cl, cerr = self.run_c("rawlog 0\nrawrep %d 7 9 0\nrawrep 3 1 2 3\nw 5\n" % mx, timeout=300)
+        lines = [l for l in cl if l.startswith("rawrep")]
+        replay = dict(kind="maxframes", maxframes=mx, rc=rc, out=lines)
+        try:
+            if rc != 0 or len(lines) != 2:
+                raise Fail("logging %d frames crashed or did not finish (rc=%d): %s" % (mx, rc, cerr[-300:]))
+            d1, d2 = kv(lines[0])[2], kv(lines[1])[2]
+            if d1["size"] != str(mx) or d1["fail"] != "0":
+                raise Fail("ZSTD_seekable_logFrame refused a frame before reaching ZSTD_SEEKABLE_MAXFRAMES=%d: %s" % (mx, lines[0]))
+            if d2["size"] != str(mx) or d2["fail"] != "3" or d2["last"] != "E100":
+                raise Fail("ZSTD_seekable_logFrame accepted frame number MAXFRAMES+1 (expected frameIndex_tooLarge, size stays %d): %s" % (mx, lines[1]))
+            self.ctx.count(("maxframes",))
+            self.ctx.cov["traces_validated_against_impl"] += 1
+        except Fail as e:
+            self.report(replay, "frame log: " + str(e))
+        except (KeyError, IndexError) as e:
+            self.report(replay, "frame log: unparsable output (%r)" % (e,), no_input=True)
+
     def phase_short_frame(self):
         """Corpus case (was finding 'livelock-short-frame', repaired in /repo by e8679b7): a seek-table entry that claims more
         decompressed bytes than its frame regenerates, checksums off.  Before the repair ZSTD_seekable_decompress never returned
@@ -1163,7 +1221,7 @@ def run(ctx):
     r = ctx.prove()
     t = Tie(ctx, rng)
     import time as _time
-    for ph in (t.phase_rawtable, t.phase_archives, t.phase_corrupt, t.phase_short_frame):
+    for ph in (t.phase_rawtable, t.phase_archives, t.phase_corrupt, t.phase_short_frame, t.phase_maxframes):
         t0 = _time.time()
         ph()
         core.log("C20 %s: %.1fs (evaluations so far %d)" % (ph.__name__, _time.time() - t0, ctx.cov["evaluations"]))
